@@ -7,7 +7,7 @@
    time of the dose before, last administration id>>.  One action per record.
 
    Phases of one behaviour (a real transition system):
-     gen    : one action per appended record (AddObs, AddDose, AddOther, AddReset,
+     gen    : one action per appended record (AddObs, AddMissing, AddDose, AddOther, AddReset,
               AddResetDose), Close ends the dataset
      expand : ExpandOne - the additional doses (ADDL/II) of ONE dose record are
               inserted at time + j*II, in chronological position inside the
@@ -96,6 +96,11 @@ Amt == 10 + Len(data)       \* distinct amounts identify the dose records
 AddObs(c, dt) == Gen /\ AddRec(Rec(c, BaseTime(c) + dt, 0, 0, NoForm, 100 + Len(data)))
 AddDose(c, dt, f) == Gen /\ FormOK(f) /\ AddRec(Rec(c, BaseTime(c) + dt, Amt, 1, f, 0))
 AddOther(c, dt) == Gen /\ "EVID" \in cols /\ AddRec(Rec(c, BaseTime(c) + dt, 0, 2, NoForm, 0))
+\* the legal NM-TRAN record of a MISSING observation: EVID = 0 with MDV = 1 (DV present but ignored, or absent = 0).
+\* It needs both columns to be told from an observation; it is NOT an observation (mdv 1, evid 0, no dose).
+AddMissing(c, dt, withdv) ==
+    /\ Gen /\ "EVID" \in cols /\ "MDV" \in cols
+    /\ AddRec([Rec(c, BaseTime(c) + dt, 0, 0, NoForm, IF withdv THEN 100 + Len(data) ELSE 0) EXCEPT !.mdv = 1])
 \* after a reset the clock may restart: time is BaseTime + dt or 0
 AddReset(c, t) == Gen /\ "EVID" \in cols /\ c # "back" /\ AddRec(Rec(c, t, 0, 3, NoForm, 0))
 AddResetDose(c, t, f) == Gen /\ "EVID" \in cols /\ c # "back" /\ FormOK(f) /\ AddRec(Rec(c, t, Amt, 4, f, 0))
@@ -105,6 +110,7 @@ ResetForms == {<<0, 0, 0, 1>>, <<1, 1, 0, 1>>, <<0, 0, 0, 2>>}
 DoObs == \E c \in IdChoices, dt \in 0..MaxDelta : AddObs(c, dt)
 DoDose == \E c \in IdChoices, dt \in 0..MaxDelta, f \in DoseForms : AddDose(c, dt, f)
 DoOther == \E c \in IdChoices, dt \in 0..MaxDelta : AddOther(c, dt)
+DoMissing == \E c \in IdChoices, dt \in 0..MaxDelta, withdv \in BOOLEAN : AddMissing(c, dt, withdv)
 DoReset == \E c \in IdChoices : \E t \in ResetTimes(c) : AddReset(c, t)
 DoResetDose == \E c \in IdChoices : \E t \in ResetTimes(c), f \in ResetForms : AddResetDose(c, t, f)
 
@@ -166,7 +172,7 @@ TieClass(S, i, w0) ==
     IF r.amt > 0 THEN "dose"
     ELSE IF DosesBefore(S, i) = {} THEN "plain"
     ELSE IF Cardinality(DosesInSlot(S, i)) >= 2 THEN "free"       \* several doses at one time point
-    ELSE IF r.evid # 0 THEN "free"                                 \* not an observation
+    ELSE IF r.mdv # 0 THEN "free"                                  \* not an observation (EVID 2, or EVID 0 with MDV 1)
     ELSE IF "SS" \in cols /\ w0.lss > 0 THEN "choice"              \* steady-state dose
     ELSE IF w0.dc = 1 THEN "choice"                                \* first dose of the individual
     ELSE IF w0.pd = -1 THEN "free"                                 \* preceding dose is beyond a reset
@@ -223,7 +229,7 @@ Finish == /\ phase = "xwalk" /\ k > Len(xdata)
 
 Init == /\ phase = "gen" /\ cols \in ColConfigs /\ idmode \in IdModes
         /\ data = <<>> /\ xdata = <<>> /\ ei = 0 /\ k = 0 /\ w = Fresh(0) /\ out = <<>> /\ xout = <<>>
-Next == DoObs \/ DoDose \/ DoOther \/ DoReset \/ DoResetDose \/ Close
+Next == DoObs \/ DoMissing \/ DoDose \/ DoOther \/ DoReset \/ DoResetDose \/ Close
         \/ ExpandOne \/ SkipExpand \/ StartWalk \/ Walk \/ WalkTie \/ StartXWalk
         \/ XWalk \/ XWalkTie \/ Finish
 Spec == Init /\ [][Next]_vars
@@ -292,7 +298,7 @@ RECURSIVE Hash(_, _)
 Hash(S, h) == IF S = <<>> THEN h
               ELSE LET r == Head(S) IN
                    Hash(Tail(S), (h * 37 + r.id + 3 * r.time + 7 * r.evid + 11 * r.addl + 13 * r.ii
-                                  + 17 * r.ss + 19 * r.cmt + 23 * r.amt) % 1000003)
+                                  + 17 * r.ss + 19 * r.cmt + 23 * r.amt + 29 * r.mdv + (r.dv % 2)) % 1000003)
 Selected == Hash(data, Cardinality(cols) + (IF idmode = "asc" THEN 0 ELSE 5)) % EmitMod = EmitSel
 SetToSeq(T) == LET RECURSIVE L(_)
                    L(U) == IF U = {} THEN <<>> ELSE LET x == CHOOSE y \in U : \A z \in U : y <= z IN <<x>> \o L(U \ {x})
